@@ -523,6 +523,15 @@ def _get_virtual_point_data_1storder(bc: ConstBC1stOrderBase):
             const = np.asarray(2 * dx * bc.const / (2 + dx * bc.value))
             factor = np.asarray((2 - dx * bc.value) / (2 + dx * bc.value))
 
+        if np.any(np.isinf(factor)):
+            # `factor` is `nan` for an infinite value; it is infinite only if
+            # `2 + dx * value == 0`, where no virtual point can impose the condition
+            msg = (
+                f"Singular mixed boundary condition: `value` must not equal -2/dx = "
+                f"{-2 / dx} on this grid"
+            )
+            raise ValueError(msg)
+
         # correct at places of infinite values
         const[~np.isfinite(factor)] = 0
         factor[~np.isfinite(factor)] = -1
@@ -545,6 +554,8 @@ def _get_virtual_point_data_1storder(bc: ConstBC1stOrderBase):
                     val = value.flat[i]
                     if np.isinf(val):
                         const.flat[i] = 0
+                    elif 2 + dx * val == 0:
+                        raise ValueError("Singular mixed boundary condition")
                     else:
                         const.flat[i] = 2 * dx * const_val / (2 + dx * val)
                 return const
@@ -557,6 +568,8 @@ def _get_virtual_point_data_1storder(bc: ConstBC1stOrderBase):
                     val = value.flat[i]
                     if np.isinf(val):
                         factor.flat[i] = -1
+                    elif 2 + dx * val == 0:
+                        raise ValueError("Singular mixed boundary condition")
                     else:
                         factor.flat[i] = (2 - dx * val) / (2 + dx * val)
                 return factor
